@@ -50,8 +50,8 @@ def main():
             for v in rng.sample(gen.VARS, rng.randint(1, 2)):
                 bs[v] = gen.scalar(rng) if rng.random() < 0.8 else gen.data(rng, 1, 2)
         c = {"kind": "match", "p": p, "d": d, "bs": bs}
-        if rng.random() < 0.15:
-            c["typed"] = rng.randint(1, 3); stats["typed"] += 1
+        if rng.random() < 0.2:
+            c["typed"] = rng.randint(1, 15); stats["typed"] += 1     # bits: core.Map at the top, []string (also empty), []core.Map / []int, ints
         if not isinstance(d, dict):
             stats["top_nonmap"] += 1
         cases.append(c)
@@ -129,6 +129,40 @@ def main():
                       "non-trivial = the pattern contains a variable; distinct by canonical JSON")
     ck.cov["distribution"] = dict(classes, **stats)
     ck.cov["traces_validated_against_impl"] = len(cases)
+
+    # sequences of calls that reuse (and rewrite in place) the caller's pattern, data and bindings objects: each call must answer
+    # for the current contents only, and must leave the caller's bindings alone
+    nseq = 300 if not ck.thorough else 6000
+    seqs = []
+    for _ in range(nseq):
+        steps = []
+        d = gen.data(rng, depth=2, width=3)
+        for _ in range(rng.randint(2, 5)):
+            if rng.random() < 0.5: d = gen.data(rng, depth=2, width=3)
+            p = gen.pattern_from(rng, d, repeat_prob=0.0)
+            if rng.random() < 0.3: p = {k: v for k, v in p.items() if not (isinstance(v, str) and v.startswith("?"))}   # variable-free patterns too
+            bs = {} if rng.random() < 0.7 else {rng.choice(gen.VARS): gen.scalar(rng)}
+            steps.append({"p": p, "d": d, "bs": bs, "viaMatches": rng.random() < 0.5})
+        seqs.append({"kind": "matchseq", "steps": steps})
+    si = run_cases(drv, seqs)
+    flat = [{"kind": "match", "p": st["p"], "d": st["d"], "bs": st["bs"]} for c in seqs for st in c["steps"]]
+    sm = run_cases(mdl, flat)
+    pos = 0
+    for c, a in zip(seqs, si):
+        outs = (a or {}).get("outs") or []
+        for k, st in enumerate(c["steps"]):
+            m = sm[pos]; pos += 1
+            ck.count({"seq": st})
+            if k >= len(outs):
+                ck.violation("core.Match sequence failed: %s" % canon(a)[:300], {"case": c, "impl": a}, tag="seq"); break
+            o = outs[k]
+            if o.get("mutated"):
+                ck.violation("core.Match changed the caller's initial bindings (or handed them back as a result) at step %d of a call sequence" % k, {"case": {"kind": "matchseq", "steps": c["steps"][: k + 1]}, "impl": o}, tag="seqmut"); break
+            same = (("err" in o) == ("err" in m)) and (o.get("err") == m.get("err") if "err" in m else bss_multi(o) == bss_multi(m))
+            if not same and m.get("small") and m.get("rep"):
+                ck.violation("core.Match answers differently when the caller reuses its pattern/data/bindings objects (step %d): impl=%s model=%s" % (k, canon(o)[:250], canon({x: m.get(x) for x in ("bss", "err")})[:250]),
+                             {"case": {"kind": "matchseq", "steps": c["steps"][: k + 1]}, "impl": o, "model": m}, tag="seq"); break
+    classes["reuse_sequences"] = nseq
 
     # known findings: replay the witnesses
     for f in kf:
